@@ -50,7 +50,7 @@ NOTES = {
  "C03-w8m2": "missed by C03 at first (caught by C19's registry linearizability check): C03 never passed --remap. 15% of C03's cases now do; then caught by C03 too (expected-row-missing).",
  "C02-w9m1": "missed at first: at most one --account and one --commodity filter were drawn. Up to three of a kind are drawn now, some with an inline (?i) flag, in either position; then caught (unexpected-row).",
  "C18-w9m1": "at first no verdict (exit 2): the instrumenter did not know conc/iter.MapErr. IterMapErr and IterForEachIdx were added to the run-time; then caught (unparseable-file-modified).",
- "C18-w9m2": "NOT CAUGHT by a verdict: the change writes through golang.org/x/sys/unix (O_TMPFILE, linkat, raw write), which bypasses the simulated file system. The instrumenter now refuses such code (exit 2, no verdict) instead of letting it act on the real file system, where the first evaluation had produced a misleading diagnosis. Engine X's real-fsize corroboration did see the torn file, but it only runs when engine S can be built. Recorded as a limit of the approach (DESIGN section 3).",
+ "C18-w9m2": "no verdict from the simulator: the change writes through golang.org/x/sys/unix (O_TMPFILE, linkat, raw write), which bypasses the simulated file system; the instrumenter refuses such code instead of letting it act on the real file system (a first evaluation had produced a misleading diagnosis). Added a fallback for exactly this situation: when engine S cannot be built, C18 runs engine X alone (bin/realfsize.py: the shipped binary under prlimit --fsize=k for every k up to 400 and drawn k above, format on one and two files, infer --inplace); then caught (real:torn-file at k=1).",
  "C04-w9m2": "at first no verdict (exit 2): sync.Map was not modelled. simrt.SyncMap (a plain map whose operations are scheduling points, Range in seeded order) replaces it; then still missed, because no layout included a file twice. C04 now moves prices/assertions into a file that two files include (diamond) in 15% of its cases; then caught.",
  "C05-w9m2": "missed at first: every generated file had a unique name. 30% of the layouts now reuse a few file names (prices.knut, transactions.knut, accounts.knut, main.knut) across directories; then caught by C05 (verdict-depends-on-layout) and C19.",
  "C14-w9m2": "at first no verdict (exit 2): os.Stdin was not modelled. Standard input of a simulated run is now an empty stream; the include-graph sub-check got the variant missing-odd (journal named by a relative path, missing include named '-', '--', '~', ...); then caught (error-swallowed).",
